@@ -102,6 +102,10 @@ for op in OP:
             add('k2_remove', '%s_%s_%s' % (op, sink, sz), 'remove_erased::<%s>(%s, %s, %s)' % (TY[sz], OP[op], SINK[sink], drop),
                 props=props, tier='q' if quick else 't', cost=120 if sz in SLOW else 15, inputs=IN_REM)
 
+for op in OP:
+    add('k2_remove', '%s_drop_nodrop_e8' % op, 'remove_erased::<E8>(%s, SINK_DROP, false)' % OP[op], props=['C01', 'C03'], tier='q' if op == 'remove' else 't', cost=15, inputs=IN_REM)
+add('k2_remove', 'remove_drop_nodrop_e3', 'remove_erased::<E3>(OP_REMOVE, SINK_DROP, false)', props=['C03'], tier='t', cost=120, inputs=IN_REM)
+
 # ---------------------------------------------------------------------------------------------------
 # K2 drain / splice
 IN_RANGE = ['len', 'cap', 'w', 'u', 'start', 'end', 'f', 'b']
@@ -214,6 +218,9 @@ for kn in KIND:
     for depth in (1, 2, 3):
         q = (kn, depth) in {('ref', 1), ('drained', 2), ('remove', 3), ('mut', 2), ('pop', 1)}
         add('k2_lazy', 'lazy_%s_d%d_e8' % (kn, depth), 'lazy_h::<E8>(%s, %d)' % (KIND[kn], depth), props=['C09', 'C03'], tier='q' if q else 't', cost=60)
+add('k2_lazy', 'lazy_remove_d1_z0', 'lazy_h::<Z0>(S_REMOVE, 1)', props=['C09'], tier='q', cost=20)
+add('k2_lazy', 'lazy_ref_d2_z0', 'lazy_h::<Z0>(S_REF, 2)', props=['C09'], tier='t', cost=20)
+add('k2_lazy', 'lazy_splice_e8', 'lazy_splice_h::<E8>()', props=['C09', 'C02'], tier='q', kind='bounded', bound='2 lazy-clone replacement items', attrs=['#[kani::unwind(5)]'], cost=150)
 add('k2_lazy', 'lazy_ref_d2_e3', 'lazy_h::<E3>(S_REF, 2)', props=['C09'], tier='t', cost=300)
 add('k2_lazy', 'lazy_remove_d1_e16', 'lazy_h::<E16>(S_REMOVE, 1)', props=['C09'], tier='t', cost=60)
 for sz in ['e8', 'z0', 'e3', 'e16', 'e160']:
@@ -250,7 +257,7 @@ for nm, sp, ty in [('drain_bad_range_e8', 'false', 'false'), ('splice_bad_range_
     add('k1_misc', nm, 'range_op_bad::<E8>(%s, %s)' % (sp, ty), props=['C02'], tier='q' if nm in ('drain_bad_range_e8', 'splice_typed_bad_range_e8') else 't', kind='panic',
         attrs=['#[kani::should_panic]'], allow=RANGE_PANIC, cost=6)
 OBS = ['#[kani::should_panic]', '#[kani::stub(crate::any_vec_raw::AnyVecRaw::index_check, crate::kani_verif::k1_misc::obs_index_check)]']
-IDX_PANIC = [r'obs_index_check', r'Index out of range', r'insert_unchecked']
+IDX_PANIC = [r'obs_index_check', r'in function any_vec_raw::AnyVecRaw::<.*>::index_check', r'Index out of range', r'in function any_vec_raw::AnyVecRaw::<.*>::insert_unchecked']
 for nm, op, ty, q in [('remove_oob_e8', 0, 'false', True), ('swap_remove_oob_e8', 1, 'false', True), ('insert_oob_e8', 2, 'false', True),
                       ('remove_typed_oob_e8', 0, 'true', True), ('swap_remove_typed_oob_e8', 1, 'true', False), ('insert_typed_oob_e8', 2, 'true', True)]:
     add('k1_misc', nm, 'index_op_bad::<E8>(%d, %s, mk_e8)' % (op, ty), props=['C01'], tier='q' if q else 't', kind='panic', attrs=OBS, allow=IDX_PANIC, cost=6)
@@ -307,6 +314,8 @@ add('t_sendsync', 't_vectors_noalloc', 't_vectors_h()', props=['C15'], tier='t',
 # ---------------------------------------------------------------------------------------------------
 # bounded stand-ins: the two per-element user-code loops; K3 real-memory cross-checks
 BL = 'len <= 8 elements, real memory, loop unwound (the loop calls user code: no loop contract can frame it in Kani 0.68)'
+add('k1_loops', 'clone_fn_0', 'clone_fn_h::<0>()', props=['C08', 'C03', 'C09'], tier='q', kind='bounded', bound=BL, attrs=['#[kani::unwind(10)]'], flags=['nolc'], cost=15, macro='p')
+add('k1_loops', 'drop_closure_0', 'drop_closure_h::<0>()', props=['C03'], tier='t', kind='bounded', bound=BL, attrs=['#[kani::unwind(10)]'], flags=['nolc'], cost=15, macro='p')
 for n in (1, 3, 8, 24):
     add('k1_loops', 'drop_closure_%d' % n, 'drop_closure_h::<%d>()' % n, props=['C03', 'C05'], tier='q' if n in (3, 8) else 't', kind='bounded', bound=BL,
         attrs=['#[kani::unwind(10)]'], flags=['nolc'], cost=15, macro='p')
@@ -321,10 +330,10 @@ add('k1_loops', 'k3_remove', 'k3_remove_h()', props=['C01', 'C05'], tier='q', ki
 # ---------------------------------------------------------------------------------------------------
 # C19: the same contracts on the --no-default-features build (no `alloc`, no Heap)
 import copy
-NA_BASE = ['insert_raw_fixed_e8', 'insert_typed_fixed_e8', 'push_raw_fixed_e8', 'splice_fixed_e8_k2', 'clone_fixed_e8', 'clone_empty_in_e8', 'drain_erased_e8',
+NA_BASE = ['copy_bytes_memmove_80', 'k3_insert', 'stack_align_a64', 'stackn_align_a32', 'insert_raw_fixed_e8', 'insert_typed_fixed_e8', 'push_raw_fixed_e8', 'splice_fixed_e8_k2', 'clone_fixed_e8', 'clone_empty_in_e8', 'drain_erased_e8',
            'remove_drop_e8', 'swap_remove_move_e8', 'pop_drop_e8', 'insert_raw_e8', 'push_fixed_full_e8', 'insert_typed_fixed_full_e8', 'stack_build_e8_16',
            'stack_build_e3_8', 'stackn_build_e8_2_16', 'stackn_insufficient_e8_2_15', 'empty_e8', 'iter_e8', 'get_e8', 'clear_e8', 'vecdrop_e8', 't_elements']
-QUICK_NA = {'insert_raw_fixed_e8', 'push_raw_fixed_e8', 'clone_fixed_e8', 'drain_erased_e8', 'remove_drop_e8', 'push_fixed_full_e8', 'stack_build_e8_16', 'stackn_build_e8_2_16', 'splice_fixed_e8_k2'}
+QUICK_NA = {'copy_bytes_memmove_80', 'stack_align_a64', 'stackn_align_a32', 'insert_raw_fixed_e8', 'push_raw_fixed_e8', 'clone_fixed_e8', 'drain_erased_e8', 'remove_drop_e8', 'push_fixed_full_e8', 'stack_build_e8_16', 'stackn_build_e8_2_16', 'splice_fixed_e8_k2'}
 for nm in NA_BASE:
     h0 = next(h for h in HS if h.name == nm)
     h = copy.copy(h0)
